@@ -324,6 +324,14 @@ func (r *R) Finish() {
 	if r.samples == nil {
 		cov["samples"] = []any{}
 	}
+	if len(r.required) > 0 {
+		// vacuity guards: observations without which the run is INCONCLUSIVE, and what was observed
+		req := map[string]any{}
+		for k, min := range r.required {
+			req[k] = map[string]int64{"min": min, "observed": r.counters[k]}
+		}
+		cov["required_observations"] = req
+	}
 	if r.exhaustive != nil {
 		cov["exhaustive"] = *r.exhaustive
 	}
